@@ -133,8 +133,13 @@ static void c16_child(const void *job, size_t n) {
 	if (!running_ref && len > 0) hx_leak_check("after the last stop / failed start");
 	static char dump[1 << 15]; size_t o = 0; unsigned long hd[3] = {0, 0, 0};
 	if (len > 0) { o = hx_dump_tx(dump, sizeof dump); vx_thread_handles(hd); }
-	o += (size_t) snprintf(dump + o, sizeof dump - o, "run%d mode%d h%lx,%lx,%lx sess%d cap%u", running_ref, running_ref ? cur_mode : -1, hd[0], hd[1], hd[2], sess_open, vx_pkt_max_cap());
+	o += (size_t) snprintf(dump + o, sizeof dump - o, "run%d mode%d h%d,%d,%d sess%d cap%u", running_ref, running_ref ? cur_mode : -1, hd[0] != 0, hd[1] != 0, hd[2] != 0, sess_open, vx_pkt_max_cap());   /* handles as set/clear: the virtual handle VALUE depends on how many threads earlier sessions created (abstraction audit) */
+	/* uplink bytes the library has not read yet (answers to the shutdown commands arrive after the receiver was stopped and
+	 * are delivered to the next session): environment state that influences the future — found by the abstraction audit */
+	o += (size_t) snprintf(dump + o, sizeof dump - o, " bus-silent=%d bus-drops-pings=%d", silent, lost_pings);    /* simulated bus mode (abstraction audit) */
+	o += (size_t) snprintf(dump + o, sizeof dump - o, " pending-uplink="); o += env_input_dump(dump + o, sizeof dump - o);
 	hx_hash_t h; hx_hash_init(&h); hx_hash_add(&h, dump, o);
+	if (getenv("VERIF_IN_REPLAY")) res_printf("X %s\n", dump);
 	res_printf("S %llx %llx\n", (unsigned long long) h.a, (unsigned long long) h.b);
 	res_finish();
 }
